@@ -133,6 +133,12 @@ def r2_refinement(ctx, A):
             else:
                 ctx.ok("C03.R2", inst + "#%d" % idx, detail={"form": form, "cases": feas}, where=where(lastev))
     ctx.floor("C03.R2.push", npush, 3, confirmed=None, what="push rows (suffix, closed, open)")
+    forms_pushed = {row["form"] for row in A["rows"] if row["kind"] == "backedge" and row["all_ok"] and len(row["pushes"]) == 1}
+    for need in ("suffix", "closed", "open"):
+        if need not in forms_pushed:
+            ctx.violation("C03.R2", "C03.R2|form-missing|%s" % need,
+                          "no path of the parser resolves the %s form (%s) to a range: such range-specs are always ignored or rejected" %
+                          (need, {"suffix": "`-n`", "closed": "`first-last`", "open": "`first-`"}[need]))
     ctx.floor("C03.R2.skip", nskip, 2, what="skip rows")
 
 
